@@ -173,8 +173,8 @@ type ChartSpec struct {
 	// SubDefaults, when not nil, adds a dependency chart "sub" (same version) whose values.yaml holds these defaults (C13).
 	SubDefaults map[string]interface{} `json:"subDefaults,omitempty"`
 	// SubUndeclared: the subchart only lies in charts/ and is not listed under dependencies in Chart.yaml (allowed).
-	SubUndeclared bool `json:"subUndeclared,omitempty"`
-	Schema      string                 `json:"schema,omitempty"`
+	SubUndeclared bool   `json:"subUndeclared,omitempty"`
+	Schema        string `json:"schema,omitempty"`
 }
 
 // ResByKey returns the resources indexed by kind/name.
